@@ -185,6 +185,19 @@ Print bad.
 '''
 
 
+UNPARSABLE = []          # (case index, coqc message) of the last run_shards call
+
+
+def _big_stack():
+    """coqc parses a shard as one term: give it the largest stack the system allows"""
+    import resource
+    try:
+        soft, hard = resource.getrlimit(resource.RLIMIT_STACK)
+        resource.setrlimit(resource.RLIMIT_STACK, (hard, hard))
+    except Exception:  # noqa: BLE001
+        pass
+
+
 def run_shards(module, case_terms, workdir, shard_size=300, max_bytes=250_000, timeout=None, imports=''):
     """Evaluate `check` on every case inside Coq.  Returns list of (case index, [sub indices])."""
     if timeout is None:
@@ -204,11 +217,14 @@ def run_shards(module, case_terms, workdir, shard_size=300, max_bytes=250_000, t
     if cur:
         shards.append((start, cur))
     paths = []
+    shard_terms = {}
     for k, (start, terms) in enumerate(shards):
         p = os.path.join(workdir, f'cases_{k}.v')
         with open(p, 'w') as f:
             f.write(SHARD_HEAD.format(module=module, module_short=short, imports=imports, cases=';\n'.join(terms)))
         paths.append((p, start))
+        shard_terms[p] = terms
+    del UNPARSABLE[:]
     procs, results = [], []
     pending = sorted(paths, key=lambda ps: -os.path.getsize(ps[0]))      # long shards first
     running = []
@@ -218,7 +234,8 @@ def run_shards(module, case_terms, workdir, shard_size=300, max_bytes=250_000, t
             p, start = pending.pop(0)
             # output goes to files: a shard with many disagreements prints more than a pipe buffer holds
             fo, fe = open(p + '.out', 'w'), open(p + '.err', 'w')
-            pr = subprocess.Popen(['coqc', '-Q', COQ, 'Concepts', '-w', '-all', p], stdout=fo, stderr=fe, cwd=workdir)
+            pr = subprocess.Popen(['coqc', '-Q', COQ, 'Concepts', '-w', '-all', p], stdout=fo, stderr=fe, cwd=workdir,
+                                  preexec_fn=_big_stack)
             fo.close()
             fe.close()
             running.append((pr, p, start, time.time()))
@@ -237,6 +254,21 @@ def run_shards(module, case_terms, workdir, shard_size=300, max_bytes=250_000, t
             with open(p + '.err', errors='replace') as f:
                 err = f.read()
             if rc != 0:
+                terms = shard_terms.get(p, [])
+                if len(terms) > 1:
+                    # one observation the model cannot even read spoils the whole shard: evaluate its cases one by one
+                    for j, t in enumerate(terms):
+                        q = p[:-2] + f'_{j}.v'
+                        with open(q, 'w') as f:
+                            f.write(SHARD_HEAD.format(module=module, module_short=short, imports=imports, cases=t))
+                        shard_terms[q] = [t]
+                        pending.append((q, start + j))
+                    continue
+                if len(terms) == 1 and 'Error' in (out + err) and 'Stack overflow' not in (out + err) and 'Out of memory' not in (out + err):
+                    # a single observation that is not a well-formed case for the model: it disagrees
+                    UNPARSABLE.append((start, (out + err)[-600:]))
+                    results.append((start, [(0, [0])]))
+                    continue
                 for other, *_ in running:
                     if other.poll() is None:
                         other.kill()
